@@ -50,8 +50,8 @@ type point struct {
 	File   string   `json:"file"`
 	Line   int      `json:"line"`
 	Vars   string   `json:"vars"`
-	Reads  []string `json:"reads,omitempty"`  // package-level variables the statement reads (directly or through a local alias)
-	Writes []string `json:"writes,omitempty"` // package-level variables the statement writes
+	Reads  []string `json:"reads,omitempty"`   // package-level variables the statement reads (directly or through a local alias)
+	Writes []string `json:"writes,omitempty"`  // package-level variables the statement writes
 	Init   bool     `json:"in_init,omitempty"` // inside a package init function (runs before any library call)
 }
 
